@@ -159,4 +159,9 @@ theorem sum_map_div (l : List Rat) (c : Rat) : (l.map (· / c)).sum = l.sum / c 
   rw [List.sum_map_mul_right]
   simp
 
+theorem sum_map_div_field {K : Type} [Field K] (l : List K) (c : K) : (l.map (· / c)).sum = l.sum / c := by
+  simp only [div_eq_mul_inv]
+  rw [List.sum_map_mul_right]
+  simp
+
 end Pew.Convolve
